@@ -25,19 +25,19 @@ type Analysis struct {
 	Fn *ssa.Function
 
 	// configuration
-	Init         func(a *Analysis, st *State)      // extra entry facts (assumption mode)
-	AtomHook     func(e *Expr) (ISet, bool)        // pattern assumptions on atoms
-	TrackFields  map[string]bool                   // memory of these field names partitions the state
-	NoInline     map[string]bool                   // local callees not to inline
-	CallModel    func(a *Analysis, st *State, call ssa.CallInstruction, args []*Expr) (*Expr, bool)
-	EventArgs    func(st *State, desc string, args []*Expr) string // optional argument rendering for call events
+	Init            func(a *Analysis, st *State) // extra entry facts (assumption mode)
+	AtomHook        func(e *Expr) (ISet, bool)   // pattern assumptions on atoms
+	TrackFields     map[string]bool              // memory of these field names partitions the state
+	NoInline        map[string]bool              // local callees not to inline
+	CallModel       func(a *Analysis, st *State, call ssa.CallInstruction, args []*Expr) (*Expr, bool)
+	EventArgs       func(st *State, desc string, args []*Expr) string // optional argument rendering for call events
 	EventsInInlined bool
 
 	// results
-	In       map[*ssa.BasicBlock]map[string]*State
-	At       map[ssa.Instruction][]*State // states before each instruction (final pass)
-	EdgeOut  map[[2]int][]*State          // states flowing along CFG edge (from,to)
-	Returns  []ReturnSite
+	In        map[*ssa.BasicBlock]map[string]*State
+	At        map[ssa.Instruction][]*State // states before each instruction (final pass)
+	EdgeOut   map[[2]int][]*State          // states flowing along CFG edge (from,to)
+	Returns   []ReturnSite
 	Undecided []string
 
 	moduli   []int64
@@ -83,7 +83,7 @@ func (a *Analysis) leafName(v ssa.Value, prefix string) string {
 
 type frame struct {
 	fn     *ssa.Function
-	prefix string            // leaf name prefix for inlined frames
+	prefix string // leaf name prefix for inlined frames
 	params map[ssa.Value]*Expr
 }
 
@@ -170,6 +170,7 @@ func (a *Analysis) step(st *State, fr *frame, in ssa.Instruction) {
 	case *ssa.Alloc:
 		l := a.freshLeaf(st, fr, "alloc", x)
 		st.fresh[l.Key] = true
+		st.zeroInit(l, x.Type().Underlying().(*types.Pointer).Elem(), siteTok(fr, x))
 		a.bind(st, fr, x, l)
 	case *ssa.BinOp:
 		xe, ye := a.exprOf(st, fr, x.X), a.exprOf(st, fr, x.Y)
@@ -331,12 +332,13 @@ func (a *Analysis) step(st *State, fr *frame, in ssa.Instruction) {
 // ---- calls -------------------------------------------------------------------------
 
 // calleeDesc names the target of a call:
-//   local static:    "fsm.stop"
-//   external static: "time.NewTimer", "time.Timer.Reset", "binary.bigEndian.Uint16"
-//   interface:       "invoke:net.Conn.Write", "invoke:Plugin.OnClose"
-//   builtin:         "builtin:len"
-//   closure:         "closure:fsm.openSent$1"
-//   dynamic:         "dyn:UpdateMessageHandler"
+//
+//	local static:    "fsm.stop"
+//	external static: "time.NewTimer", "time.Timer.Reset", "binary.bigEndian.Uint16"
+//	interface:       "invoke:net.Conn.Write", "invoke:Plugin.OnClose"
+//	builtin:         "builtin:len"
+//	closure:         "closure:fsm.openSent$1"
+//	dynamic:         "dyn:UpdateMessageHandler"
 func (p *Prog) calleeDesc(c ssa.CallInstruction) string {
 	cc := c.Common()
 	if cc.IsInvoke() {
@@ -835,7 +837,8 @@ func (a *Analysis) callEffects(st *State, fr *frame, c ssa.CallInstruction, asyn
 func (a *Analysis) partKey(st *State) string {
 	var parts []string
 	for v, e := range st.env {
-		if _, ok := v.(*ssa.Phi); !ok {
+		phi, ok := v.(*ssa.Phi)
+		if !ok || !isFlagPhi(phi, nil) {
 			continue
 		}
 		if c, ok := e.IsConst(); ok {
@@ -868,16 +871,16 @@ func (a *Analysis) flow(st *State, from, to *ssa.BasicBlock) *State {
 	}
 	n := st.clone()
 	type pb struct {
-		phi *ssa.Phi
-		e   *Expr
-		r   ISet
-		nn  ISet
-		ts  *TypeSet
-		lin *Lin
-		cg  map[int64]int64
+		phi     *ssa.Phi
+		e       *Expr
+		r       ISet
+		nn      ISet
+		ts      *TypeSet
+		lin     *Lin
+		cg      map[int64]int64
 		isSlice bool
-		lenR ISet
-		lenLin *Lin
+		lenR    ISet
+		lenLin  *Lin
 	}
 	var pbs []pb
 	for _, in := range to.Instrs {
@@ -1072,7 +1075,10 @@ func (a *Analysis) congruences(st *State, l Lin) map[int64]int64 {
 	return out
 }
 
-// Run computes the fixpoint.
+// Run computes the fixpoint. The in-state of a block is the join of the
+// *latest* states on its incoming edges (per partition); at loop heads the
+// new in-state is additionally joined/widened with the previous one so that
+// the iteration is increasing there and terminates.
 func (a *Analysis) Run() {
 	fn := a.Fn
 	if len(fn.Blocks) == 0 {
@@ -1085,17 +1091,27 @@ func (a *Analysis) Run() {
 	if entry.dead {
 		return
 	}
-	a.In[fn.Blocks[0]] = map[string]*State{a.partKey(entry): entry}
-	// reverse post-order
+	entryKey := a.partKey(entry)
+	a.In[fn.Blocks[0]] = map[string]*State{entryKey: entry}
 	order := rpo(fn)
 	pos := map[*ssa.BasicBlock]int{}
 	for i, b := range order {
 		pos[b] = i
 	}
-	dirty := map[*ssa.BasicBlock]map[string]bool{fn.Blocks[0]: {a.partKey(entry): true}}
+	loopHead := map[*ssa.BasicBlock]bool{}
+	for _, b := range fn.Blocks {
+		for _, pr := range b.Preds {
+			if b.Dominates(pr) {
+				loopHead[b] = true
+			}
+		}
+	}
+	// contributions: (to) -> (from|inKey) -> outKey -> state
+	type contrib map[string]map[string]*State
+	edges := map[*ssa.BasicBlock]contrib{}
+	dirty := map[*ssa.BasicBlock]map[string]bool{fn.Blocks[0]: {entryKey: true}}
 	iter := 0
 	for {
-		// pick the dirty block earliest in RPO
 		var blk *ssa.BasicBlock
 		for b, ks := range dirty {
 			if len(ks) == 0 {
@@ -1109,16 +1125,27 @@ func (a *Analysis) Run() {
 			break
 		}
 		iter++
-		if iter > 20000 {
+		if iter > 6000 {
 			a.undecided("fixpoint did not converge in %s", a.P.Name(fn))
 			break
 		}
 		keys := sortedKeys(dirty[blk])
 		dirty[blk] = map[string]bool{}
+		touched := map[*ssa.BasicBlock]bool{}
 		for _, k := range keys {
 			in := a.In[blk][k]
 			if in == nil {
 				continue
+			}
+			src := fmt.Sprintf("%d|%s", blk.Index, k)
+			// drop this partition's previous contributions
+			for _, s := range blk.Succs {
+				if edges[s] != nil {
+					if _, had := edges[s][src]; had {
+						delete(edges[s], src)
+						touched[s] = true
+					}
+				}
 			}
 			a.transferBlock(blk, in.clone(), func(to *ssa.BasicBlock, out *State) {
 				if out.dead {
@@ -1129,33 +1156,76 @@ func (a *Analysis) Run() {
 					return
 				}
 				pk := a.partKey(ns)
-				m := a.In[to]
-				if m == nil {
-					m = map[string]*State{}
-					a.In[to] = m
+				if edges[to] == nil {
+					edges[to] = contrib{}
 				}
-				if old, ok := m[pk]; ok {
-					vk := fmt.Sprintf("%d|%s", to.Index, pk)
-					a.visits[vk]++
-					if old.join(ns, a.visits[vk] > 3, fmt.Sprintf("J%d", to.Index)) {
-						markDirty(dirty, to, pk)
-					}
+				if edges[to][src] == nil {
+					edges[to][src] = map[string]*State{}
+				}
+				if old, ok := edges[to][src][pk]; ok {
+					old.join(ns, false, fmt.Sprintf("J%d", to.Index))
 				} else {
-					if len(m) >= maxPartitions {
-						a.undecided("partition cap exceeded at block %d of %s", to.Index, a.P.Name(fn))
-						// merge into an arbitrary existing partition (sound: join)
-						for _, ok := range sortedKeys(m) {
-							if m[ok].join(ns, true, fmt.Sprintf("J%d", to.Index)) {
-								markDirty(dirty, to, ok)
-							}
-							break
-						}
-						return
+					edges[to][src][pk] = ns
+				}
+				touched[to] = true
+			})
+		}
+		for to := range touched {
+			// recompute the in-states of `to` from the latest contributions
+			cand := map[string]*State{}
+			for _, src := range sortedKeys(edges[to]) {
+				for _, pk := range sortedKeys(edges[to][src]) {
+					st := edges[to][src][pk]
+					if cur, ok := cand[pk]; ok {
+						cur.join(st, false, fmt.Sprintf("J%d", to.Index))
+					} else {
+						cand[pk] = st.clone()
 					}
-					m[pk] = ns
+				}
+			}
+			if to == fn.Blocks[0] {
+				if cur, ok := cand[entryKey]; ok {
+					cur.join(entry, false, "J0")
+				} else {
+					cand[entryKey] = entry.clone()
+				}
+			}
+			if len(cand) > maxPartitions {
+				a.undecided("partition cap exceeded at block %d of %s", to.Index, a.P.Name(fn))
+				// merge everything into one partition (sound)
+				var all *State
+				for _, pk := range sortedKeys(cand) {
+					if all == nil {
+						all = cand[pk]
+					} else {
+						all.join(cand[pk], true, fmt.Sprintf("J%d", to.Index))
+					}
+				}
+				cand = map[string]*State{"": all}
+			}
+			old := a.In[to]
+			if old == nil {
+				old = map[string]*State{}
+			}
+			for _, pk := range sortedKeys(cand) {
+				ns := cand[pk]
+				o, had := old[pk]
+				vk := fmt.Sprintf("%d|%s", to.Index, pk)
+				if had && (loopHead[to] || a.visits[vk] > 40) {
+					// increasing iteration at loop heads (and as a safety net)
+					a.visits[vk]++
+					m := o.clone()
+					m.join(ns, a.visits[vk] > 3, fmt.Sprintf("J%d", to.Index))
+					ns = m
+				} else if had {
+					a.visits[vk]++
+				}
+				if !had || o.fingerprint() != ns.fingerprint() {
+					old[pk] = ns
 					markDirty(dirty, to, pk)
 				}
-			})
+			}
+			a.In[to] = old
 		}
 	}
 	// final recording pass
